@@ -41,11 +41,21 @@ def wellformed(dump):
                 bad.append("collection /%s lies inside the calendar / address book /%s" % ("/".join(e["path"]), "/".join(t)))
         if not e["tag"] and e["items"]:
             bad.append("plain collection /%s holds items" % "/".join(e["path"]))
+        for i in e["items"]:
+            want = {"VCALENDAR": ("VCALENDAR",), "VADDRESSBOOK": ("VCARD", "VLIST")}.get(e["tag"])
+            if want and i.get("name") and i["name"] not in want:
+                bad.append("%s /%s holds the %s object %s" % ({"VCALENDAR": "calendar", "VADDRESSBOOK": "address book"}[e["tag"]],
+                                                               "/".join(e["path"]), i["name"], i["href"]))
     return bad
 
 
 def run_history(ctx, rng, length, hid):
-    sim = davsim.Sim(ctx)
+    # half of the histories run under an owner-style policy: letters on the collection paths only, nothing on the
+    # paths of items (what owner_only / authenticated give) — the handlers' pre-lock guesses differ between the two
+    if rng.random() < 0.5:
+        sim = davsim.Sim(ctx, rights_default="", rights_table={("u", tuple(p)): "RrWw" for p in davsim.COLLS if p[:1] == ["u"]})
+    else:
+        sim = davsim.Sim(ctx)
     known = []
     reqs = []
     try:
